@@ -1,9 +1,120 @@
-import Rs1090.Proofs.Decode.Wp
+/-
+BDS 6,2 target state and status — lemmas on `Model/Decode/Bds62.lean`:
+panic-freedom (C01), serialisability (C07) and ranges (C08), for every reader state.
+-/
+import Rs1090.Proofs.Decode.FieldsLemmas
 import Rs1090.Model.Decode.Bds62
+import Rs1090.Props.C13
 namespace Rs1090.Model.Bds62
 open Rs1090 Rs1090.Model
 
-/-- STUB proof for the STUB reader (replaced together with the model) -/
-theorem read_noPanic : NoPanic read := by unfold read; exact noPanic_fail _
+/-! ### per-field lemmas over the full code spaces -/
+
+/-- selected altitude: `None` for codes 0/1, else a multiple of 100 ft in [0, 65400] -/
+def altOk : Option Nat → Bool
+  | none => true
+  | some a => decide (a % 100 = 0) && decide (a ≤ 65400)
+
+/-- all 2^11 codes: the `u16` arithmetic `((a-1)*32+16)/100*100` never overflows -/
+theorem selectedAltitude_spec : ∀ v, v < 2 ^ 11 →
+    Outcome.check altOk (selectedAltitude v) = true :=
+  Rs1090.Props.C13.enum 11 (by decide +kernel)
+
+/-- barometric setting: a finite number (denominator `2^24`) within [800, 1208.0001] mbar, and within
+    1e-4 mbar of the real-number value `800 + 0.8 (qnh - 1)` -/
+def baroOk (qnh : Nat) : Option (Nat × Nat) → Bool
+  | none => qnh == 0
+  | some (n, d) => d != 0 && decide (800 * d ≤ n) && decide (n * 10000 ≤ 12080001 * d) &&
+      decide (((n : Int) * 10 - (qnhIdealTenths qnh : Int) * d).natAbs * 10000 < 10 * d)
+
+/-- all 2^9 codes -/
+theorem barometricSetting_spec : ∀ q, q < 2 ^ 9 →
+    Outcome.check (baroOk q) (barometricSetting q) = true :=
+  Rs1090.Props.C13.enum 9 (by decide +kernel)
+
+/-- `heading * 180 / 256` lies in [0, 360) for every 9-bit code -/
+theorem heading_range (h : Nat) (hh : h < 2 ^ 9) :
+    Constraint.holds (.range 0 360 false) (jrat (headingNum h) headingDen) = true := by
+  simp [Constraint.holds, jrat, ratIn, headingNum, headingDen]
+  omega
+
+theorem selectedAltitude_noPanic (v : Nat) (h : v < 2 ^ 11) : (selectedAltitude v).isPanic = false :=
+  (Outcome.of_check (selectedAltitude_spec v h)).1
+
+theorem barometricSetting_noPanic (q : Nat) (h : q < 2 ^ 9) : (barometricSetting q).isPanic = false :=
+  (Outcome.of_check (barometricSetting_spec q h)).1
+
+/-! ### keys -/
+
+theorem sf_source : specFor (key! "source").id = none := rfl
+theorem sf_selalt : specFor (key! "selected_altitude").id = none := rfl
+theorem sf_baro : specFor (key! "barometric_setting").id = none := rfl
+theorem sf_selhdg : specFor (key! "selected_heading").id = some (.range 0 360 false) := rfl
+theorem sf_nacp : specFor (key! "NACp").id = none := rfl
+theorem sf_autopilot : specFor (key! "autopilot").id = none := rfl
+theorem sf_vnav : specFor (key! "vnav_mode").id = none := rfl
+theorem sf_althold : specFor (key! "alt_hold").id = none := rfl
+theorem sf_approach : specFor (key! "approach_mode").id = none := rfl
+theorem sf_tcas : specFor (key! "tcas_operational").id = none := rfl
+theorem sf_lnav : specFor (key! "lnav_mode").id = none := rfl
+
+theorem modeFlag_wf (k : Key) (ms v : Bool) : entryWf (skipNone k (modeFlag ms v)) = true := by
+  cases ms <;> simp [modeFlag]
+
+theorem modeFlag_inRange (k : Key) (ms v : Bool) (hk : specFor k.id = none) :
+    entryInRange (skipNone k (modeFlag ms v)) = true := by
+  cases ms
+  · rfl
+  · exact entryInRange_free k _ hk (by simp)
+
+/-- everything at once: no panic; the result serialises and is in range -/
+theorem read_spec (s : Rd) : wp read (fun r _ => SerGood outerKeys r ∧ RangeGood r) s := by
+  unfold read
+  wp_run
+  have halt := Outcome.of_check (selectedAltitude_spec _ (by assumption))
+  apply wp_lift_of halt.1; intro alt ealt
+  have halt' := halt.2 alt ealt
+  wp_run
+  have hq := Outcome.of_check (barometricSetting_spec _ (by assumption))
+  apply wp_lift_of hq.1; intro qnh eqnh
+  have hq' := hq.2 qnh eqnh
+  wp_run
+  rename_i hdgStatus _ hdgRaw _ hhdg _ _ _ _ _ _ _ _ modeStatus _ _ _ _ _ _ _ _ _ _ _ _ _ _ _ _
+  have hqwf : entryWf (skipNone (key! "barometric_setting") (qnh.map fun (n, d) => jrat n d)) = true := by
+    cases qnh with
+    | none => rfl
+    | some nd =>
+      obtain ⟨n, d⟩ := nd
+      simp only [baroOk, Bool.and_eq_true] at hq'
+      simpa using hq'.1.1.1
+  refine ⟨?_, ?_⟩
+  · refine serGood_of_fields _ _ (by ids_tac) (by ids_tac) ?_
+    simp only [List.all_cons, List.all_nil, Bool.and_true, Bool.and_eq_true]
+    refine ⟨by simp, entryWf_skipNone_map _ _ _ (by simp), hqwf, ?_, by simp, modeFlag_wf _ _ _, modeFlag_wf _ _ _,
+      modeFlag_wf _ _ _, modeFlag_wf _ _ _, by simp, modeFlag_wf _ _ _⟩
+    cases hdgStatus <;> simp [headingDen]
+  · apply rangeGood_of_fields
+    simp only [List.all_cons, List.all_nil, Bool.and_true, Bool.and_eq_true]
+    refine ⟨entryInRange_free _ _ sf_source (by simp), ?_, ?_, ?_, entryInRange_free _ _ sf_nacp (by simp),
+      modeFlag_inRange _ _ _ sf_autopilot, modeFlag_inRange _ _ _ sf_vnav, modeFlag_inRange _ _ _ sf_althold,
+      modeFlag_inRange _ _ _ sf_approach, entryInRange_free _ _ sf_tcas (by simp), modeFlag_inRange _ _ _ sf_lnav⟩
+    · exact entryInRange_free_opt _ _ sf_selalt (by intro v hv; cases alt <;> simp at hv; subst hv; simp)
+    · exact entryInRange_free_opt _ _ sf_baro (by
+        intro v hv; cases qnh with
+        | none => simp at hv
+        | some nd => obtain ⟨n, d⟩ := nd; simp at hv; subst hv; simp)
+    · cases hdgStatus
+      · rfl
+      · exact entryInRange_spec _ _ _ sf_selhdg (heading_range hdgRaw hhdg)
+
+theorem read_noPanic : NoPanic read := fun s => wp_mono (read_spec s) (fun _ _ _ => trivial)
+
+/-- C07 -/
+theorem read_serGood : ∀ s, wp read (fun r _ => SerGood outerKeys r) s :=
+  fun s => wp_mono (read_spec s) (fun _ _ h => h.1)
+
+/-- C08: `selected_heading` ∈ [0, 360) -/
+theorem read_rangeGood : ∀ s, wp read (fun r _ => RangeGood r) s :=
+  fun s => wp_mono (read_spec s) (fun _ _ h => h.2)
 
 end Rs1090.Model.Bds62
